@@ -39,7 +39,7 @@ type C04Params struct {
 	Post   string `json:"post,omitempty"`
 	// configuration as written (key -> value; missing key = not written)
 	Config     map[string]string `json:"config"`
-	ConfigMode string            `json:"config_mode"` // complete | partial | padded | empty | torn | type-error | other-name | absent | open-eacces | open-eloop | is-directory
+	ConfigMode string            `json:"config_mode"` // complete | partial | padded | extra-keys | empty | torn | type-error | other-name | absent | open-eacces | open-eloop | is-directory
 	// effective patterns according to the statement (what must be inserted)
 	E      cfgPattern `json:"effective_evasion"`
 	SAt    cfgPattern `json:"effective_suffix"`
@@ -105,7 +105,7 @@ func genC04(t *rapid.T, tier string) (*World, any) {
 			word += `\~`
 		}
 		if chance(t, 8, "verbatim") {
-			word = "'" + pick(t, []string{"ab+c", "x[0-9]y", "p(?:q|r)s"}, "verb")
+			word = "'" + pick(t, []string{"ab+c", "x[0-9]y", "p(?:q|r)s", "kk|mm", "ap(?:t)?|yu"}, "verb")
 		}
 		if seen[word] {
 			continue
@@ -129,7 +129,7 @@ func genC04(t *rapid.T, tier string) (*World, any) {
 		full["anti_evasion_suffix."+sh] = pick(t, suffixPool[sh], "S-"+sh)
 		full["anti_evasion_no_space_suffix."+sh] = pick(t, noSpacePool[sh], "N-"+sh)
 	}
-	p.ConfigMode = pick(t, []string{"complete", "complete", "complete", "partial", "padded", "empty", "torn", "type-error", "other-name", "absent", "open-eacces", "open-eloop", "is-directory"}, "cfgmode")
+	p.ConfigMode = pick(t, []string{"complete", "complete", "complete", "partial", "padded", "extra-keys", "empty", "torn", "type-error", "other-name", "absent", "open-eacces", "open-eloop", "is-directory"}, "cfgmode")
 	written := map[string]cfgPattern{}
 	for k, v := range full {
 		written[k] = v
@@ -177,6 +177,9 @@ func genC04(t *rapid.T, tier string) (*World, any) {
 		w.Put(cfgPath, render(false))
 	case "padded":
 		w.Put(cfgPath, render(true))
+	case "extra-keys":
+		// unknown keys next to the known ones do not make the file unreadable
+		w.Put(cfgPath, "schema_version: 2\n"+render(false)+"  future_pattern:\n    unix: zzz\nmaintainer: someone\n")
 	case "empty":
 		w.Put(cfgPath, pick(t, []string{"", "\n", "# nothing\n", "patterns:\n"}, "emptycfg"))
 		effective = false
